@@ -1,0 +1,5 @@
+//go:build !verif
+
+package stdlib
+
+func verifYield(ctx *context, point string) {}
